@@ -274,3 +274,35 @@ Proof.
         as (r' & E & _).
       rewrite E. reflexivity.
 Qed.
+
+(** *** WriteBitString / Append write ALL bits of the argument, whatever the
+    argument's read cursor is (the Go code resets the cursor of its by-value
+    copy to 0 before copying; the caller's bit string keeps its cursor) *)
+Lemma write_bitstring_g_eq a s : write_bitstring_g write_bit a s = write_bitstring a s.
+Proof. unfold write_bitstring_g, write_bitstring. rewrite write_bits_g_real. reflexivity. Qed.
+
+Lemma write_bitstring_any_cursor a r s :
+  write_bitstring (set_rcur a r) s = write_bitstring a s.
+Proof. reflexivity. Qed.
+
+Lemma append_any_cursor b r s : append_bs (set_rcur b r) s = append_bs b s.
+Proof. reflexivity. Qed.
+
+Theorem write_bitstring_spec a r s :
+  Inv s -> Inv a ->
+  if (len s + len a <=? cap s)%nat then
+    exists s', write_bitstring (set_rcur a r) s = (s', Ok tt) /\
+      abs s' = abs s ++ abs a /\ Inv s' /\ len s' = (len s + len a)%nat /\ rcur s' = rcur s
+  else
+    exists s', write_bitstring (set_rcur a r) s = (s', Err EOverflow) /\
+      firstn (len s) (abs s') = abs s /\ Inv s'.
+Proof.
+  intros HI HA. rewrite write_bitstring_any_cursor.
+  rewrite <- write_bitstring_g_eq, write_bitstring_g_real by exact HA.
+  pose proof (abs_length a HA) as Hl.
+  destruct (Nat.leb_spec (len s + len a) (cap s)) as [Hfit|Hov].
+  - destruct (write_bits_ok (abs a) s HI ltac:(rewrite Hl; exact Hfit))
+      as (s' & E & A & I' & L & C & R & _).
+    exists s'. rewrite Hl in L. splits; auto.
+  - apply write_bits_overflow_keeps; [exact HI|rewrite Hl; exact Hov].
+Qed.
